@@ -40,9 +40,9 @@ var c06Sel *eng.Kind[SelCase]
 
 func init() {
 	c := eng.Register(&eng.Check{
-		ID:    "C06",
-		Title: "One notion of truthiness drives every selection operator",
-		Rule: "34 condition values (three nulls, booleans, numbers incl. 0, -0, 0.0, NaN, infinities, strings incl. '' and '0', arrays, maps, times, functions, structs) x 10 branch sentinels of every kind: !!c, !c, c?a:b, c&&b, c||b, c??b and every depth-2 nesting of two of them; branch evaluation of ?: observed through recording host functions and through local assignments; result must be the selected operand unchanged (numbers by value, arrays/maps by identity); distinct = distinct (formula shape, selected operand) classes",
+		ID:          "C06",
+		Title:       "One notion of truthiness drives every selection operator",
+		Rule:        "34 condition values (three nulls, booleans, numbers incl. 0, -0, 0.0, NaN, infinities, strings incl. '' and '0', arrays, maps, times, functions, structs) x 10 branch sentinels of every kind: !!c, !c, c?a:b, c&&b, c||b, c??b and every depth-2 nesting of two of them; branch evaluation of ?: observed through recording host functions and through local assignments; result must be the selected operand unchanged (numbers by value, arrays/maps by identity); distinct = distinct (formula shape, selected operand) classes",
 		TrustedBase: []string{"truthiness table written from the statement in checks/c06.go"},
 		Assumptions: []string{"side effects of the operands of && || ?? are not judged (only ?: must be lazy)", "a typed nil pointer has no expectation under ! (it is null for ??, as it is for member access and ===)"},
 		Run:         runC06,
